@@ -618,6 +618,10 @@ class AdaptiveMonitor(Base):
         self.d = []
         self.prev_tentative = float(self.o.dt_init)
         self.exhaustions = 0
+        # every run starts with the configured initial step, whatever it was started from (seed solution included)
+        self.count("initial_proposal_checks")
+        if float(solver.tentative_dt) != float(self.o.dt_init):
+            self.viol("first_proposal_not_dt_init", "first_proposal_not_dt_init", {"tentative_dt": float(solver.tentative_dt), "dt_init": float(self.o.dt_init), "seeded": solver.seed_solution is not None})
 
     def on_update_begin(self, ctx):
         ctx["calls"] = []
